@@ -5,11 +5,11 @@ CONSTANTS
   TX <- Table
   Use <- UseQB
   Boots <- BootsQB
-  ReapCaps = {1, 2}
+  ReapCaps = {2}
   OwnCuts = {0, 1, 1000}
   ExpireCuts = {1}
   MaxForeign = 2
-  MaxSteps = 6
+  MaxSteps = 5
   FeeBug = FALSE
 INVARIANTS TypeOK ReapExecutable Distinct NotCommitted NoSharedKeyImage GapFreeFromCommittedNonce CoveredByBalance WellSorted CacheIsPool NoStrandedExecutable CheckIsLedgerPlusGood KeyCacheIsUtxoq CommittedRemoved
 PROPERTIES RejectedLeavesCheckStateUnchanged RejectedLeavesPoolUnchanged
